@@ -166,6 +166,7 @@ type crashInfo struct {
 	Seed   uint64
 	Class  string
 	Detail string
+	Sc     *sim.Scenario // set when the crashing scenario did not come from a seed
 }
 
 var reSeedStart = regexp.MustCompile(`### seed (\d+) start`)
@@ -572,6 +573,7 @@ type violGroup struct {
 	best        *sim.RunResult // smallest scenario
 	detail      string
 	crashSeed   uint64
+	crashSc     *sim.Scenario
 	isCrash     bool
 }
 
@@ -605,6 +607,25 @@ func check(prop, tier string) int {
 		batches = append(batches, batch{prop: prop, from: base + uint64(off), count: uint64(c)})
 	}
 	results, crashes, _ := runAll(bin, batches, nil)
+	// regression scenarios of repaired defects: a fixed entry suppresses
+	// nothing, the violation is reported again if it ever returns
+	regs, _ := filepath.Glob(filepath.Join(verifDir, "regress", prop+"-*.json"))
+	sort.Strings(regs)
+	for i, rp := range regs {
+		sc, err := sim.LoadScenario(rp)
+		if err != nil {
+			fatal2("regress %s: %v", rp, err)
+		}
+		sc.Expect = nil
+		r, c := replayOnce(bin, rp, fmt.Sprintf("regress-%d", i))
+		if r != nil {
+			r.Scenario = sc
+			r.Seed = uint64(900_000_000 + i)
+			results = append(results, r)
+		} else if c != nil {
+			crashes = append(crashes, crashInfo{Seed: 0, Class: c.Class, Detail: c.Detail, Sc: sc})
+		}
+	}
 
 	// race pass
 	var raceRes []*sim.RunResult
@@ -680,7 +701,7 @@ func report(prop, tier string, seed uint64, plan Plan, bin string, results []*si
 		key := prop + ":" + c.Class
 		g := groups[key]
 		if g == nil {
-			g = &violGroup{prop: prop, class: c.Class, detail: c.Detail, isCrash: true, crashSeed: c.Seed}
+			g = &violGroup{prop: prop, class: c.Class, detail: c.Detail, isCrash: true, crashSeed: c.Seed, crashSc: c.Sc}
 			groups[key] = g
 		}
 		g.count++
@@ -713,6 +734,8 @@ func report(prop, tier string, seed uint64, plan Plan, bin string, results []*si
 		var sc *sim.Scenario
 		if g.best != nil {
 			sc = g.best.Scenario
+		} else if g.crashSc != nil {
+			sc = g.crashSc
 		} else if g.isCrash {
 			sc = sim.Generate(prop, g.crashSeed)
 		}
@@ -886,7 +909,7 @@ func main() {
 		fmt.Println("usage: driver check <PROP> <quick|thorough> | replay <file> | build | selftest")
 		os.Exit(2)
 	}
-	workDir = filepath.Join(verifDir, ".work")
+	workDir = envOr("VERIF_WORK", filepath.Join(verifDir, ".work"))
 	_ = os.MkdirAll(filepath.Join(workDir, "run"), 0o755)
 	_ = os.MkdirAll(filepath.Join(workDir, "cwd"), 0o755)
 	switch os.Args[1] {
